@@ -287,13 +287,21 @@ func (p *Parser) parseBetweenExpression(left Expression) Expression {
 }
 
 func (p *Parser) parseInExpression(left Expression) Expression {
-	p.nextToken()
+	if !p.expectPeek(LPAREN) {
+		return nil
+	}
 
-	return &InExpression{
+	expression := &InExpression{
 		Token: p.curToken,
 		Left:  left,
 		Range: p.parseCallArguments(),
 	}
+
+	if len(expression.Range) == 0 && len(p.errors) == 0 {
+		p.errors = append(p.errors, "Syntax error; IN needs at least one operand")
+	}
+
+	return expression
 }
 
 func (p *Parser) parseCallArguments() []Expression {
